@@ -7,11 +7,14 @@
    the linear pass parses completely returns exactly the prescribed items and ends in the
    prescribed state; this holds on EVERY message for the items that parse, and reading the first
    item that does not parse fails and exhausts the reader.
-   Not proved (decided by the scripts stream, where the extracted abstract reader is the oracle,
-   DESIGN.md 5 C09 and 12): the owned/typed flavours inside whole scripts; a seek-by-skipping that
-   meets an item that does not parse (only: it fails and exhausts the reader, C09_error_latches). *)
+   (5) every flavour of every call (owned/borrowed questions, the three header flavours, the four
+   data calls) makes the same step and returns the prescribed item; (6) seek to an unknown offset.
+   What the sequence theorem C09_reader_refines composes is one flavour per operation; the per-call
+   theorems (5) give every other flavour the same pre- and post-state, so any mix composes the same
+   way.  Not proved: a seek-by-skipping that meets an item that does not parse (only: it fails and
+   exhausts the reader, C09_error_latches). *)
 From RsdnsModel Require Import Base Cursor Names Labels Header Tracker RData Reader.
-From RsdnsModel.Spec Require Import LinearPass.
+From RsdnsModel.Spec Require Import WireName LinearPass.
 From RsdnsModel.Proofs Require Import Latch ReaderTotal LatchFull TrackerRefine SpecExec ParseSpec ReaderRefine.
 Open Scope N_scope.
 
@@ -179,6 +182,65 @@ Theorem C09_unparsable_record_fails : forall msg nq an ns ar qs rs e1 e2, parsed
     exists r1 r2 e, rd_marker msg r = (r1, Ok (OMarker mk)) /\ rd_skip_data mk r1 = (r2, Err e) /\ r_done r2 = true
   end.
 Proof. exact fail_record_any. Qed.
+
+(* ---- every flavour of the calls ----
+   Questions: question / the_question (owned name) and question_ref / the_question_ref (borrowed):
+   in a represented state with item idx a parsed question (and, for the_question*, exactly one
+   question left), the call returns that question — the owned flavour with the text of the spec's
+   labels — and leads to (idx+1, idx+1); an owned read of a name longer than 255 octets fails and
+   exhausts the reader. *)
+Theorem C09_question_flavours : forall msg nq an ns ar qs rs e1 e2, parsed msg nq an ns ar qs rs e1 e2 ->
+  forall single as_ref r idx hw it,
+  RState msg nq an ns ar qs rs e2 r idx hw -> getN qs idx = Some it ->
+  (single = true -> idx + 1 = nq) -> (as_ref = false -> a_fits255 it = true) ->
+  exists r' o, rd_question msg single as_ref r = (r', Ok o) /\ RState msg nq an ns ar qs rs e2 r' (idx + 1) (idx + 1) /\
+    if as_ref then o = OQuestionRef (r_cur r) (a_type it) (a_class it)
+    else exists ls e, spec_name msg (a_start it) = SAccept ls e /\ o = OQuestion (join_labels (map snd ls)) (a_type it) (a_class it).
+Proof. exact question_flavours_any. Qed.
+
+Theorem C09_owned_question_too_long : forall msg nq an ns ar qs rs e1 e2, parsed msg nq an ns ar qs rs e1 e2 ->
+  forall single r idx hw it,
+  RState msg nq an ns ar qs rs e2 r idx hw -> getN qs idx = Some it ->
+  (single = true -> idx + 1 = nq) -> a_fits255 it = false ->
+  exists r' e, rd_question msg single false r = (r', Err e) /\ r_done r' = true.
+Proof. exact owned_question_too_long_any. Qed.
+
+(* Records: each of the header calls (record_marker, record_header_ref, record_header<N> for either
+   name type) returns exactly the prescribed header [mk_of]: offsets, TYPE, CLASS, TTL, RDLENGTH and
+   section of item idx — the owned flavour with the text of the spec's labels, failing (and
+   exhausting the reader) when the name exceeds 255 octets — and leads to the intermediate state
+   [RMid] (cursor at the record data, data call pending).  From RMid each data call given that
+   marker consumes exactly the record: skip_record_data, record_data_bytes (returning exactly the
+   RDLENGTH octets at the data offset), opt_record (for an OPT header), and typed record_data — which
+   either returns a value and leads to (idx+1, max hw (idx+1)) like the others, or fails and
+   exhausts the reader (what the value is: C02/C04). *)
+Theorem C09_record_header_flavours : forall msg nq an ns ar qs rs e1 e2, parsed msg nq an ns ar qs rs e1 e2 ->
+  forall r idx hw it,
+  RState msg nq an ns ar qs rs e2 r idx hw -> nq <= idx -> getN rs (idx - nq) = Some it ->
+  let mk := mk_of nq an ns ar qs rs e2 idx it in
+  (exists r1, rd_marker msg r = (r1, Ok (OMarker mk)) /\ RMid msg nq an ns ar qs rs e2 r1 idx hw it) /\
+  (exists r1, rd_header_ref msg r = (r1, Ok (OHeaderRef (r_cur r) mk)) /\ RMid msg nq an ns ar qs rs e2 r1 idx hw it) /\
+  (forall nk, a_fits255 it = true ->
+     exists r1 ls e, spec_name msg (a_start it) = SAccept ls e /\
+       rd_header_n msg nk r = (r1, Ok (OHeaderN (join_labels (map snd ls)) mk)) /\ RMid msg nq an ns ar qs rs e2 r1 idx hw it) /\
+  (forall nk, a_fits255 it = false -> exists r1 e, rd_header_n msg nk r = (r1, Err e) /\ r_done r1 = true).
+Proof. exact header_flavours_any. Qed.
+
+Theorem C09_record_data_flavours : forall msg nq an ns ar qs rs e1 e2, parsed msg nq an ns ar qs rs e1 e2 ->
+  forall r1 idx hw it, RMid msg nq an ns ar qs rs e2 r1 idx hw it ->
+  let mk := mk_of nq an ns ar qs rs e2 idx it in
+  (exists r2, rd_skip_data mk r1 = (r2, Ok OUnit) /\ RState msg nq an ns ar qs rs e2 r2 (idx + 1) (N.max hw (idx + 1))) /\
+  (exists r2, rd_data_bytes msg mk r1 = (r2, Ok (OBytes (a_type_off it + 10) (subN msg (a_type_off it + 10) (a_rdlen it)))) /\
+              RState msg nq an ns ar qs rs e2 r2 (idx + 1) (N.max hw (idx + 1))) /\
+  (a_type it = T_OPT ->
+   exists r2, rd_opt mk r1 = (r2, Ok (OOpt (opt_from_msg (a_class it) (a_ttl it)))) /\
+              RState msg nq an ns ar qs rs e2 r2 (idx + 1) (N.max hw (idx + 1))) /\
+  (forall ty r2 x, read_rdata msg ty (a_rdlen it) <> None -> rd_data msg ty mk r1 = (r2, x) ->
+     match x with
+     | Ok o => (exists d, o = ORData d) /\ RState msg nq an ns ar qs rs e2 r2 (idx + 1) (N.max hw (idx + 1))
+     | _ => r_done r2 = true
+     end).
+Proof. exact data_flavours_any. Qed.
 
 (* seek to a section whose offset is NOT known (the high-water mark has not passed its first item):
    on a reader standing right behind the header (idx 0) the reader gets there by skipping — all
